@@ -13,7 +13,7 @@ bufmon.install_contracts()
 
 ID = "C01"
 LEVEL = "exploration"
-N_QUICK, N_THOROUGH = 120000, 4000000
+N_QUICK, N_THOROUGH = 200000, 4000000
 T_QUICK, T_THOROUGH = 70, 1500
 FLOORS = {"objects_compared": 4000, "reads": 100000, "form:plain": 500, "form:kwargs": 100, "form:nd_c": 300,
           "form:nd_f": 300, "form:nd_strided": 200, "form:nd_obj": 100, "form:xobj_same": 200,
